@@ -717,7 +717,13 @@ def solve_matrix(matrix, mode=EXACT):
     fs = [Factoid(f) if isinstance(f, collections.abc.Iterable) else f for f in matrix]
     db = dict()
     for ft in fs:
-        insert_db(db, dfactoid(ft, ASM(ft)))
+        df = dfactoid(ft, ASM(ft))
+        # The elimination steps assume that every factoid in the database has been
+        # through the gcd check (see one_var_analysis), so normalize the input as well.
+        g = functools.reduce(gcd, ft.key, 0)
+        if g > 1:
+            df = dfactoid(Factoid([floor(c / g) for c in ft]), GCDCheck(df.deriv))
+        insert_db(db, df)
     r = solve(EXACT, db, len(matrix[0]))
     if isinstance(r, Satisfiable):
         return "SAT", r.store
